@@ -399,6 +399,7 @@ fn cache_key_stream(query: &Query, key_name: &Name, ty: RecordType, recs: &[Reco
 }
 
 struct FreshInfo {
+    canon: Vec<Option<Vec<u8>>>,
     indep_ok: bool,
     sig: S,
     ref_bytes: Option<Vec<u8>>,
@@ -700,11 +701,21 @@ fn exec_inner(t: &[&str]) -> Option<Out> {
                     }
                 }
                 let p0 = proofs.first().copied().unwrap_or(Proof::Indeterminate);
+                // class flag `validation-cache-outlives-signature`, computed here and by the Lean predicate
+                let dev = !fresh
+                    && p0 == Proof::Secure
+                    && (!in_window(now, &s) || ttls.first().map(|t| *t > s.exp.wrapping_sub(now)).unwrap_or(false));
+                // class flag `validation-cache-key-folds-rdata-case`: served from an entry whose fresh
+                // validation had the same RRSIG but other canonical RDATA
+                let canon_now: Vec<Option<Vec<u8>>> = recs_n.iter().map(|r| r.rd.ref_canon()).collect();
+                let dev2 = !fresh && p0 == Proof::Secure && h.memory.get(&ck).map(|fi| fi.sig == s && fi.canon != canon_now).unwrap_or(false);
                 let out = format!(
-                    "{} {} {} sig {sig_out}",
+                    "{} {} {} sig {sig_out} dev={}{}",
                     if fresh { "fresh" } else { "cached" },
                     proof_tok(p0),
-                    ttls.iter().map(|t| t.to_string()).collect::<Vec<_>>().join(" ")
+                    ttls.iter().map(|t| t.to_string()).collect::<Vec<_>>().join(" "),
+                    b(dev),
+                    b(dev2)
                 );
                 let mut fails = vec![];
                 let mut stats = vec![format!("h.{}.{}", if fresh { "fresh" } else { "cached" }, proof_tok(p0))];
@@ -726,7 +737,7 @@ fn exec_inner(t: &[&str]) -> Option<Out> {
                 let refc = s.ref_case(&name_n, s.cls, &recs_n);
                 let raw_lower: Vec<Vec<u8>> = recs_n.iter().map(|r| r.rd.ref_canon().unwrap_or_default().to_ascii_lowercase()).collect();
                 if fresh {
-                    h.memory.insert(ck.clone(), FreshInfo { indep_ok: bad_now.is_empty(), sig: s.clone(), ref_bytes: refc.ref_signed_data(), raw_lower: raw_lower.clone() });
+                    h.memory.insert(ck.clone(), FreshInfo { canon: recs_n.iter().map(|r| r.rd.ref_canon()).collect(), indep_ok: bad_now.is_empty(), sig: s.clone(), ref_bytes: refc.ref_signed_data(), raw_lower: raw_lower.clone() });
                 }
                 if p0 == Proof::Secure {
                     if fresh {
